@@ -32,6 +32,10 @@ TInit == IsEv("init") /\ E.c = ci /\ E.ok = (sc.initFail # ci) /\ InitC
 TAfter == IsEv("after") /\ E.c = ci /\ After(E.p)
 TRun == IsEv("run") /\ E.i \in 1..NR /\ E.ok = ~sc.runners[E.i].fail /\ RunnerRun(E.i)
 TRunReturn == IsEv("runReturn") /\ ~E.panic /\ RunReturn /\ E.ok = (status' = "ok")
+\* the SAME App started a second time (fresh registry and factory, no components): nothing of the first start is invoked again -
+\* there is no action between the two events, so a runner called by the second start is not a behaviour
+TRestart == IsEv("restart") /\ status = "ok" /\ UNCHANGED vars
+TRestartReturn == IsEv("restartReturn") /\ E.ok /\ UNCHANGED vars
 TCloseBegin == IsEv("closeBegin") /\ CloserBegin(E.j)
 TCloseEnd == IsEv("closeEnd") /\ CloserEnd(E.j)
 TCloseReturn == IsEv("closeReturn") /\ CloseReturn
@@ -41,7 +45,7 @@ ResetTo(s) ==
   /\ initCnt' = [c \in 1..s.comps |-> 0] /\ early' = <<>>
 TReset == IsEv("scenario") /\ ResetTo(ScOf(E.sc))
 TraceInit == l = 2 /\ Init /\ aft = [c \in 1..K |-> 0] /\ bad = FALSE
-TraceNext == (TLoad \/ TEarly \/ TBefore \/ TInit \/ TAfter \/ TRun \/ TRunReturn \/ TCloseBegin \/ TCloseEnd \/ TCloseReturn \/ TReset)
+TraceNext == (TLoad \/ TRestart \/ TRestartReturn \/ TEarly \/ TBefore \/ TInit \/ TAfter \/ TRun \/ TRunReturn \/ TCloseBegin \/ TCloseEnd \/ TCloseReturn \/ TReset)
              /\ UNCHANGED <<aft, bad>>
 TraceSpec == TraceInit /\ [][TraceNext]_<<vars, l, aft, bad>>
 Accepted == IF TLCGet("stats").diameter = Len(Trace) THEN TRUE
@@ -71,6 +75,8 @@ MStep ==
      /\ bad' = (bad \/ (E.ev = "closeBegin" /\ (E.j \notin 1..NC \/ cst[E.j] # "idle"))      \* a closer invoked twice
                     \/ (E.ev = "closeEnd" /\ (E.j \notin 1..NC \/ cst[E.j] # "begun"))
                     \/ E.ev = "closeHang"
+                    \/ (E.ev \in {"run", "load", "init"} /\ status \in {"ok", "err"})       \* a callback of a start that has already returned
+                    \/ (E.ev = "restartReturn" /\ ~E.ok)
                     \/ (E.ev \in {"before", "after"} /\ (E.c \notin 1..K \/ E.p \notin 1..NP))
                     \/ (E.ev = "run" /\ E.i \notin 1..NR) \/ (E.ev = "load" /\ E.i \notin 1..NL))
 MonitorSpec == TraceInit /\ [][MStep]_<<vars, l, aft, bad>>
